@@ -356,6 +356,12 @@ def run_param_layouts(ctx):
              'all.json': '{"Limits": {"max": 10}, "Names": {"owner": "me"}, "size": 5}',
              # file names: a leading dot, several dots, a blank, a leading dash-like character - a parameter file is a parameter file
              '.limits.json': '{"Limits": {"max": 10}}', '.names.yaml': 'Names:\n  owner: me\n', 'pdot/.limits.json': '{"Limits": {"max": 10}}', 'pdot/names.yaml': 'Names:\n  owner: me\n',
+             # a parameter directory that also holds files that are no documents (no extension, .txt, .md), sorted before, between and after the parameter files
+             'pstray/0README': 'read me\n', 'pstray/a_notes.txt': 'notes\n', 'pstray/limits.json': '{"Limits": {"max": 10}}', 'pstray/m_notes.md': '# notes\n',
+             'pstray/names.yaml': 'Names:\n  owner: me\n', 'pstray/z.txt': 'z\n',
+             'pstray2/a_notes.txt': 'notes\n', 'pstray2/sub/limits.json': '{"Limits": {"max": 10}}', 'pstray2/sub/b.txt': 'b\n', 'pstray2/sub/names.yaml': 'Names:\n  owner: me\n',
+             'pstraydup/a_notes.txt': 'notes\n', 'pstraydup/limits.json': '{"Limits": {"max": 10}}', 'pstraydup/limits_again.json': '{"Limits": {"max": 99}}', 'pstraydup/names.yaml': 'Names:\n  owner: me\n',
+             'limits_again.json': '{"Limits": {"max": 99}}',
              'limits.v2.json': '{"Limits": {"max": 10}}', 'my names.yaml': 'Names:\n  owner: me\n', '_limits.json': '{"Limits": {"max": 10}}', '~names.yaml': 'Names:\n  owner: me\n'}
     e2e.write_files(d, files)
     for link, target in (('pdir/names.yaml', '../outside/names.yaml'), ('linked_limits.json', 'outside/limits.json')):
@@ -375,6 +381,8 @@ def run_param_layouts(ctx):
         'a dot-named file in a parameter directory': ['-i', 'pdot'],
         'names with several dots and a blank': ['-i', 'limits.v2.json', '-i', 'my names.yaml'],
         'names starting with _ and ~': ['-i', '_limits.json', '-i', '~names.yaml'],
+        'a parameter directory with files that are no documents in between': ['-i', 'pstray'],
+        'nested parameter directories with files that are no documents': ['-i', 'pstray2'],
     }
     jobs, meta = [], []
     for mlab, flags in (('plain', []), ('structured', ['--structured', '-o', 'json', '-S', 'none'])):
@@ -384,10 +392,19 @@ def run_param_layouts(ctx):
             for data, ref in (('data.json', 'union_ok.json'), ('bad.json', 'union_bad.json')):
                 jobs.append({'args': ['validate', '-r', 'r.guard', '-d', data] + iargs + flags, 'cwd': d}); meta.append((mlab, lab, ref))
         jobs.append({'args': ['validate', '-r', 'r.guard', '-d', 'empty.json', '-i', 'all.json'] + flags, 'cwd': d}); meta.append((mlab, 'an empty struct as the data file', 'union_ok.json'))
+        # two parameter files defining one key: an error whether they are named one by one or sit in a directory next to files that are no documents
+        jobs.append({'args': ['validate', '-r', 'r.guard', '-d', 'data.json', '-i', 'outside/limits.json', '-i', 'limits_again.json', '-i', 'outside/names.yaml'] + flags, 'cwd': d}); meta.append((mlab, 'dup', 'named'))
+        jobs.append({'args': ['validate', '-r', 'r.guard', '-d', 'data.json', '-i', 'pstraydup'] + flags, 'cwd': d}); meta.append((mlab, 'dup', 'directory'))
     res = dict(zip(meta, e2e.run_many(jobs)))
     n = 0
     for (mlab, lab, ref), (code, so, se) in res.items():
         if lab == 'ref':
+            continue
+        if lab == 'dup':
+            n += 1
+            if code in (0, 19):
+                ctx.failing('two parameter files define the same key (%s, given as %s): exit %s - a verdict instead of an error' % (mlab, ref, code),
+                            {'class': 'merge-layout', 'layout': 'duplicate key, ' + ref, 'mode': mlab, 'stdout': so[:500].decode('utf-8', 'replace'), 'stderr': se[-300:].decode('utf-8', 'replace')}, found=True)
             continue
         n += 1
         rc, rso, rse = res[(mlab, 'ref', ref)]
